@@ -89,6 +89,7 @@ type Disagreement struct {
 	Input string `json:"input"`
 	Impl  string `json:"impl"`
 	Model string `json:"model"`
+	Case  any    `json:"case,omitempty"`
 }
 
 // Compare runs the batch through the driver and lists the differing lines.
